@@ -88,5 +88,5 @@ var (
 )
 
 func TestVerifC12V0Seq(t *testing.T) {
-	c12kit.RunSeq(c12Adapter{}, "v0-seq", 75*time.Second, 18*time.Minute, c12Quick, c12Thorough)
+	c12kit.RunSeq(c12Adapter{}, "v0-seq", 100*time.Second, 15*time.Minute, c12Quick, c12Thorough)
 }
